@@ -4,6 +4,7 @@ pub mod c04;
 pub mod frun_common;
 pub mod c05;
 pub mod c06;
+pub mod c07;
 pub mod c14;
 pub mod c15;
 pub mod c19;
@@ -19,6 +20,7 @@ pub fn run(ctx: &Ctx, sink: &mut Sink) -> bool {
         "C03" => c02::run_c03(ctx, sink),
         "C04" => c04::run_prop(ctx, sink),
         "C18" => c02::run_c18(ctx, sink),
+        "C07" => c07::run_prop(ctx, sink),
         "C19" => c19::run_prop(ctx, sink),
         "C20" => c20::run_prop(ctx, sink),
         "C06" => c06::run_prop(ctx, sink),
